@@ -491,7 +491,14 @@ impl TransferControl {
             // would otherwise spin forever. Clamp so the first
             // chunk always passes; the practical case
             // (chunk_size <= window_bytes) is unaffected.
-            if in_flight == 0 || in_flight + chunk_len <= guard.window_bytes {
+            // The sum is checked: `sent_offset` and `chunk_len` are caller-supplied
+            // u64s, and a wrapped sum would grant credit with a full window in
+            // flight (release) or panic while holding the mutex (debug).
+            if in_flight == 0
+                || in_flight
+                    .checked_add(chunk_len)
+                    .is_some_and(|total| total <= guard.window_bytes)
+            {
                 return Ok(());
             }
             let now = Instant::now();
